@@ -186,6 +186,269 @@ def check_cmp_results(ctx, out, rule, vb=None):
     return n
 
 
+ORD_DISCR = {"Less": -1, "Equal": 0, "Greater": 1}
+
+
+def check_direction(ctx, out, vb, rule="C06.dir", only_other=False):
+    """The direction table, decided by case analysis (engine.casewalk, A15) instead of by reading one
+    spelling of it: for the attribute value in each of the classes {blank, asc, desc, other} (classes
+    of `value.trim().is_empty()` / `value.to_lowercase() == "asc" | "desc"`) and the comparator
+    returning each of {Less, Equal, Greater} for a pair (previous key, current key), which of
+    {a violation is built, the block is accepted, an error is returned} can happen.
+    Expected: blank/asc -> violation iff Greater; desc -> violation iff Less; other -> never accepted,
+    never a violation (the run fails)."""
+    from engine import casewalk as CW
+    cfg = cfg_of(vb)
+    loops = [(h, bl) for h, bl, kind in shared.outer_block_loops(ctx, vb) if kind == "blocks"]
+    if len(loops) != 1:
+        out.viol(rule, "%s|block-loop" % rule, ctx.where(vb), "expected one per-block loop in the keep-sorted validator, found %d" % len(loops))
+        out.inst(rule, 0, 3)
+        return None
+    h, lblocks = loops[0]
+    drivers = {bi for bi, t in vb.calls() if bi in lblocks and callee_matches(t, r"Iterator>?::next$")
+               and re.search(r"blocks_with_context", render(ctx.expr(vb).operand(t["args"][0]), 3000))}
+    cmp_sites = {bi for bi, t in vb.calls() if (ctx.facts.body(t.get("res") or "") is not None) and ctx.facts.body(t.get("res")).local_ty(0).startswith("std::result::Result<std::cmp::Ordering")}
+    viol_sites = {bi for bi, t in vb.calls() if callee_matches(t, r"validators::Violation::new$") or
+                  (ctx.facts.body(t.get("res") or "") is not None and re.search(r"Result<blockwatch::validators::Violation,|^blockwatch::validators::Violation$", ctx.facts.body(t.get("res")).local_ty(0)))}
+    if not cmp_sites or not viol_sites or not drivers:
+        out.viol(rule, "%s|anchors" % rule, ctx.where(vb), "comparator call / violation construction / block iteration not found in the keep-sorted validator (%d/%d/%d)" % (len(cmp_sites), len(viol_sites), len(drivers)))
+        out.inst(rule, 0, 12)
+        return None
+    std = CW.std_hooks()
+    n = 0
+    samples = []
+    results = {}
+    for cls in ("blank", "asc", "desc", "other"):
+        for o in ("Less", "Equal", "Greater"):
+            seen = set()
+
+            def hook(w, bb, t, argv, env, cls=cls, o=o):
+                nm = callee_name(t)
+                d = t.get("def") or ""
+                if bb in drivers:
+                    return CW.adt("std::option::Option", "Some", 1, [("0", CW.TOP)])
+                if bb in cmp_sites:
+                    return CW.adt("std::result::Result", "Ok", 0, [("0", ("adt", "std::cmp::Ordering", o, ORD_DISCR[o], ()))])
+                if re.search(r"HashMap::<K, V, S, A>::(get|contains_key)$", nm) and len(argv) > 1:
+                    k = w.deref_val(env, argv[1])
+                    if k == CW.const(NAME):
+                        return CW.const(1) if nm.endswith("contains_key") else CW.adt("std::option::Option", "Some", 1, [("0", CW.sym("ATTR"))])
+                    return None
+                if re.search(r"ops::Index<.*>>?::index$", nm) and len(argv) > 1 and w.deref_val(env, argv[1]) == CW.const(NAME):
+                    return CW.sym("ATTR")
+                a0 = w.deref_val(env, argv[0]) if argv else CW.TOP
+                if re.search(r"<impl str>::trim(_ascii)?$", nm) and a0[0] == "sym":
+                    return CW.sym("trim", a0)
+                if re.search(r"<impl str>::to_(ascii_)?lowercase$", nm) and a0[0] == "sym":
+                    return CW.sym("lower", a0)
+                if re.search(r"<impl str>::is_empty$|string::String::is_empty$", nm) and a0[0] == "sym":
+                    if a0[1] == "trim" and a0[2] == CW.sym("ATTR"):
+                        return CW.const(1 if cls == "blank" else 0)
+                    if a0 == CW.sym("ATTR"):
+                        return None if cls == "blank" else CW.const(0)
+                    return None
+                if re.search(r"::eq_ignore_ascii_case$", nm) and len(argv) > 1:
+                    b0 = w.deref_val(env, argv[1])
+                    s, k = (a0, b0) if a0[0] == "sym" else (b0, a0)
+                    if s == CW.sym("ATTR") and CW.is_const(k) and isinstance(k[1], str):
+                        return _lower_eq(cls, k[1])
+                    return None
+                if re.search(r"cmp::PartialEq.*>::(eq|ne)$", nm) or re.search(r"cmp::PartialEq::(eq|ne)$", d):
+                    b0 = w.deref_val(env, argv[1]) if len(argv) > 1 else CW.TOP
+                    s, k = (a0, b0) if a0[0] == "sym" else (b0, a0)
+                    if s[0] == "sym" and CW.is_const(k) and isinstance(k[1], str):
+                        r = None
+                        if s == CW.sym("lower", CW.sym("ATTR")):
+                            r = _lower_eq(cls, k[1])
+                        if r is None:
+                            return None
+                        if nm.endswith("::ne") or d.endswith("::ne"):
+                            r = CW.const(1 - r[1])
+                        return r
+                    return std(w, bb, t, argv, env)
+                if re.search(r"anyhow::Context.*::(context|with_context)$|anyhow::context::<impl anyhow::Context|Result::<T, E>::map_err$", nm):
+                    if a0[0] == "adt" and a0[2] == "Ok":
+                        return a0
+                    if a0[0] == "adt" and a0[2] == "Err":
+                        return CW.adt("std::result::Result", "Err", 1, [("0", CW.TOP)])
+                    return None
+                if re.search(r"FromResidual<.*>>?::from_residual$", nm) or re.search(r"FromResidual::from_residual$", d):
+                    dt = t.get("dest_ty") or ""
+                    if dt.startswith("std::result::Result"):
+                        return CW.adt("std::result::Result", "Err", 1, [("0", CW.TOP)])
+                    return None
+                return std(w, bb, t, argv, env)
+
+            w = CW.Walk(ctx, vb, [hook])
+            first = [True]
+
+            def on_visit(bb, env, seen=seen):
+                if bb in viol_sites:
+                    seen.add("violation")
+                if bb in cmp_sites:
+                    seen.add("compared")
+                tt = vb.blocks[bb]["term"]
+                if tt and tt["k"] == "return":
+                    r0 = env.get(0, CW.TOP)
+                    if r0[0] == "adt" and r0[2] == "Err":
+                        seen.add("error")
+                    else:
+                        seen.add("accepted")
+            w.on_visit = on_visit
+
+            def stop(bb, env, seen=seen, first=first):
+                if bb == h:
+                    if first[0]:
+                        first[0] = False
+                        return False
+                    seen.add("accepted")
+                    return True
+                return False
+            try:
+                w.explore(h, {}, stop)
+            except CW.Limit as e:
+                out.viol(rule, "%s|limit" % rule, ctx.where(vb), "case analysis of the direction table did not finish (%s)" % e)
+                out.inst(rule, 0, 12)
+                return None
+            results[(cls, o)] = seen
+    for (cls, o), seen in sorted(results.items()):
+        if only_other and cls != "other":
+            continue
+        if cls == "other":
+            bad = [x for x in ("accepted", "violation") if x in seen]
+            if bad or "error" not in seen:
+                out.viol(rule, "%s|other|%s" % (rule, "+".join(bad) or "no-error"), ctx.where(vb),
+                         "with a keep-sorted value that is neither blank, `asc` nor `desc` (any letter case) the block can be %s; expected: the run fails with an error" % (" / ".join(bad) or "processed without any error exit"))
+            else:
+                n += 1
+            continue
+        want = (o == "Greater") if cls in ("blank", "asc") else (o == "Less")
+        got = "violation" in seen
+        if "compared" not in seen:
+            out.viol(rule, "%s|%s|rejected" % (rule, cls), ctx.where(vb),
+                     "with a %s keep-sorted value the keys are never compared (%s): %s is a documented direction" % (cls, sorted(seen), "an empty value / `asc`" if cls != "desc" else "`desc`"))
+        elif got != want:
+            out.viol(rule, "%s|%s|%s" % (rule, cls, o), ctx.where(vb),
+                     "keep-sorted value %s, comparator(previous, current) = %s: a violation is %s; expected %s (ascending: violation iff previous > current; descending: iff previous < current; equal neighbours are in order)"
+                     % ({"blank": "blank", "asc": "`asc` (any case)", "desc": "`desc` (any case)"}[cls], o, "built" if got else "not built", "one" if want else "none"))
+        elif "accepted" not in seen:
+            out.viol(rule, "%s|%s|never-accepted" % (rule, cls), ctx.where(vb), "with a %s keep-sorted value no path finishes the block without an error" % cls)
+        else:
+            n += 1
+    samples.append("cases {blank,asc,desc,other} x {Less,Equal,Greater}: violation iff (blank|asc, Greater) or (desc, Less); other -> error only")
+    out.inst(rule, n, 3 if only_other else 12, samples, exhaustive=True, note="direction table by case analysis over the normalised validator (12 cases)")
+    return None
+
+
+def _lower_eq(cls, s):
+    """truth of lower(value) == s in the class"""
+    from engine import casewalk as CW
+    if cls == "asc":
+        return CW.const(1 if s == "asc" else 0)
+    if cls == "desc":
+        return CW.const(1 if s == "desc" else 0)
+    if s in ("asc", "desc"):
+        return CW.const(0)
+    return None
+
+
+def check_pairs(ctx, out, vb, rule="C06.adjacent"):
+    """Which keys meet in the comparator: for every pattern of three content lines, each with a key
+    (S) or without one (N: blank / non-matching), the comparator must be called exactly for the
+    consecutive pairs of keyed lines, as (earlier key, later key). Decided by case analysis
+    (engine.casewalk): the i-th key extraction yields the symbol K_i (or None), the comparator
+    answers Equal, and the pairs of symbols that reach the comparator are collected."""
+    from engine import casewalk as CW
+    loops = [(h, bl) for h, bl, kind in shared.outer_block_loops(ctx, vb) if kind == "blocks"]
+    keysites = {bi for cb, bi, t in key_fns(ctx, vb)}
+    cmp_sites = {bi for bi, t in vb.calls() if (ctx.facts.body(t.get("res") or "") is not None) and ctx.facts.body(t.get("res")).local_ty(0).startswith("std::result::Result<std::cmp::Ordering")}
+    if len(loops) != 1 or not keysites or not cmp_sites:
+        out.viol(rule, "%s|shape" % rule, ctx.where(vb), "per-block loop / key extraction calls / comparator call not found (%d/%d/%d)" % (len(loops), len(keysites), len(cmp_sites)))
+        out.inst(rule, 0, 8)
+        return
+    h, lblocks = loops[0]
+    drivers = {bi for bi, t in vb.calls() if bi in lblocks and callee_matches(t, r"Iterator>?::next$")
+               and re.search(r"blocks_with_context", render(ctx.expr(vb).operand(t["args"][0]), 3000))}
+    std = CW.std_hooks()
+    n = 0
+    import itertools
+    for pat in itertools.product("SN", repeat=3):
+        pairs = set()
+        undecided = []
+
+        def hook(w, bb, t, argv, env, pat=pat):
+            nm = callee_name(t)
+            d = t.get("def") or ""
+            if bb in drivers:
+                return CW.adt("std::option::Option", "Some", 1, [("0", CW.TOP)])
+            if bb in keysites:
+                i = env.get(-1, CW.const(0))[1]
+                if i >= 3:
+                    return "diverge"
+                env[-1] = CW.const(i + 1)
+                if pat[i] == "N":
+                    return CW.adt("std::option::Option", "None", 0, [])
+                return CW.adt("std::option::Option", "Some", 1, [("0", ("tuple", (CW.sym("K%d" % (i + 1)), CW.TOP)))])
+            if bb in cmp_sites:
+                vals = [w.deref_val(env, a) for a in argv]
+                ks = [v for v in vals if v[0] == "sym" and str(v[1]).startswith("K")]
+                if len(ks) == 2:
+                    pairs.add((ks[0][1], ks[1][1]))
+                else:
+                    undecided.append([v[0] for v in vals])
+                return CW.adt("std::result::Result", "Ok", 0, [("0", ("adt", "std::cmp::Ordering", "Equal", 0, ()))])
+            if re.search(r"HashMap::<K, V, S, A>::(get|contains_key)$", nm) and len(argv) > 1 and w.deref_val(env, argv[1]) == CW.const(NAME):
+                return CW.const(1) if nm.endswith("contains_key") else CW.adt("std::option::Option", "Some", 1, [("0", CW.const("asc"))])
+            if re.search(r"anyhow::Context.*::(context|with_context)$|anyhow::context::<impl anyhow::Context|Result::<T, E>::map_err$", nm):
+                a0 = w.deref_val(env, argv[0]) if argv else CW.TOP
+                return a0 if a0[0] == "adt" and a0[2] == "Ok" else None
+            if re.search(r"<impl str>::to_(ascii_)?lowercase$|<impl str>::trim$", nm):
+                a0 = w.deref_val(env, argv[0]) if argv else CW.TOP
+                return a0 if CW.is_const(a0) else None
+            if re.search(r"<impl str>::is_empty$|string::String::is_empty$", nm):
+                a0 = w.deref_val(env, argv[0]) if argv else CW.TOP
+                return CW.const(1 if a0[1] == "" else 0) if CW.is_const(a0) and isinstance(a0[1], str) else None
+            return std(w, bb, t, argv, env)
+        w = CW.Walk(ctx, vb, [hook])
+        first = [True]
+
+        def stop(bb, env, first=first):
+            if bb == h:
+                if first[0]:
+                    first[0] = False
+                    return False
+                return True
+            return False
+        try:
+            w.explore(h, {}, stop)
+        except CW.Limit as e:
+            out.viol(rule, "%s|limit" % rule, ctx.where(vb), "case analysis of the neighbour pairs did not finish (%s)" % e)
+            out.inst(rule, n, 8)
+            return
+        keys = ["K%d" % (i + 1) for i in range(3) if pat[i] == "S"]
+        want = {(keys[j], keys[j + 1]) for j in range(len(keys) - 1)}
+        p = "".join(pat)
+        if undecided:
+            out.viol(rule, "%s|%s|opaque" % (rule, p), ctx.where(vb), "lines %s (S: has a key, N: none): the comparator is called with arguments that are not keys of content lines (%s)" % (p, undecided[0]))
+        elif pairs != want:
+            extra = sorted(pairs - want)
+            missing = sorted(want - pairs)
+            swapped = [x for x in extra if (x[1], x[0]) in want]
+            if swapped:
+                msg = "the comparator is called as (%s, %s) - (later key, earlier key): the order of the arguments is reversed, so ascending blocks are judged as descending" % swapped[0]
+                key = "swapped"
+            elif missing and not extra:
+                msg = "the neighbouring keys %s are never compared" % (missing,)
+                key = "missing"
+            else:
+                msg = "the comparator sees the pairs %s; expected exactly the consecutive keyed lines %s (a key compared with an older key than its neighbour, or a pair left out)" % (sorted(pairs), sorted(want))
+                key = "pairs"
+            out.viol(rule, "%s|%s|%s" % (rule, p, key), ctx.where(vb), "lines %s (S: has a key, N: none): %s" % (p, msg))
+        else:
+            n += 1
+    out.inst(rule, n, 8, ["for each of the 8 key patterns of 3 lines: comparator pairs == consecutive keyed lines, in (earlier, later) order"], exhaustive=True)
+
+
 def run(ctx, out, tier):
     vb = work_view(ctx)
     if vb is None:
@@ -196,106 +459,7 @@ def run(ctx, out, tier):
     E = ctx.expr(vb)
 
     # ------------------------------------------------------------------ C06.dir
-    n_dir = 0
-    samples = []
-    # (1) the normalised direction: const "asc" iff trimmed attribute empty, else lower-cased attribute
-    norm_locals = []
-    for l, ds in vb.defs().items():
-        kinds = []
-        for d in ds:
-            if d[0] == "call" and callee_matches(d[3], r"<impl str>::to_lowercase$"):
-                kinds.append(("lower", d))
-            elif d[0] == "call" and callee_matches(d[3], r"ToString>?::to_string$|String::from$|ToOwned>?::to_owned$"):
-                c = util.const_of(ctx, d[3]["args"][0]) if d[3]["args"] else None
-                ce = E.operand(d[3]["args"][0]) if d[3]["args"] else None
-                if c is None and ce is not None and ce[0] == "const":
-                    c = ce[1]
-                kinds.append(("const:%s" % c, d))
-        if any(k == "lower" for k, _ in kinds) and len(kinds) == len(ds):
-            norm_locals.append((l, kinds))
-    if len(norm_locals) != 1:
-        out.viol("C06.dir", "C06.dir|normalised-direction", ctx.where(vb),
-                 "could not identify the normalised sort direction (a String that is either the constant default or the lower-cased attribute); found %d candidates" % len(norm_locals))
-    else:
-        nl, kinds = norm_locals[0]
-        for k, d in kinds:
-            gs = util.guards(ctx, vb, d[1])
-            emp = [(vals, render(e, 300)) for br, vals, e in gs if re.search(r"str::is_empty\(str::trim\(", render(e, 300))]
-            if k.startswith("const:"):
-                if k != "const:asc":
-                    out.viol("C06.dir", "C06.dir|default", ctx.where(vb, d[3]["span"]), "an empty keep-sorted value defaults to %r, documented default is ascending" % k[6:])
-                elif not emp or 0 in emp[0][0]:
-                    out.viol("C06.dir", "C06.dir|default-guard", ctx.where(vb, d[3]["span"]), "the default direction is chosen on a condition other than `value.trim().is_empty()`")
-                else:
-                    n_dir += 1
-            else:
-                if not emp or emp[0][0] != {0}:
-                    out.viol("C06.dir", "C06.dir|lower-guard", ctx.where(vb, d[3]["span"]), "the attribute is lower-cased on a condition other than `!value.trim().is_empty()`")
-                else:
-                    n_dir += 1
-        samples.append("normalised := 'asc' if value.trim().is_empty() else value.to_lowercase()")
-        # (2) Err iff normalised not in {asc, desc}
-        err_found = False
-        for bi, j, s in vb.assigns():
-            rv = s["rv"]
-            if s["lhs"]["l"] == 0 and rv["k"] == "agg" and rv.get("variant") == "Err":
-                atoms = [linelevel.streq_atom(ctx, e, vals) for br, vals, e in util.guards(ctx, vb, bi)]
-                atoms = [a for a in atoms if a]
-                consts = {a[2]: a[3] for a in atoms if "normalized" in a[1] or True}
-                if set(consts) >= {"asc", "desc"} and len(atoms) >= 2 and not any(a[0] != "streq" for a in atoms):
-                    # this is the direction error exit
-                    if consts["asc"] is False and consts["desc"] is False:
-                        err_found = True
-                        n_dir += 1
-                    else:
-                        out.viol("C06.dir", "C06.dir|err-polarity", ctx.where(vb, s["span"]),
-                                 "the 'expected asc or desc' error is raised when the direction EQUALS one of them")
-                        err_found = True
-        if not err_found:
-            out.viol("C06.dir", "C06.dir|err-missing", ctx.where(vb),
-                     "no error exit guarded by `direction != \"asc\" && direction != \"desc\"` was found: an unknown direction would be accepted")
-        samples.append("Err iff normalised ∉ {asc, desc}")
-    # (3) the violating ordering
-    ord_locals = []
-    for l, ds in vb.defs().items():
-        vs = []
-        for d in ds:
-            if d[0] == "stmt" and d[3]["rv"]["k"] == "agg" and d[3]["rv"].get("path") == "std::cmp::Ordering":
-                vs.append((d[3]["rv"]["variant"], d))
-        if vs and len(vs) == len(ds):
-            ord_locals.append((l, vs))
-    viol_ord = None
-    if len(ord_locals) != 1:
-        out.viol("C06.dir", "C06.dir|violating-ordering", ctx.where(vb),
-                 "could not identify the violating ordering (a local assigned only Ordering constants); found %d candidates" % len(ord_locals))
-    else:
-        viol_ord, vs = ord_locals[0]
-        table = {}
-        for variant, d in vs:
-            atoms = [linelevel.streq_atom(ctx, e, vals) for br, vals, e in util.guards(ctx, vb, d[1])]
-            atoms = [a for a in atoms if a and a[2] in ("asc", "desc")]
-            # the innermost guard decides
-            table[variant] = atoms
-        want = {"Greater": ("asc", True), "Less": ("asc", False)}
-        for variant, atoms in table.items():
-            if variant == "Equal":
-                out.viol("C06.dir", "C06.dir|equal-violates", ctx.where(vb), "equal neighbours are treated as a violation (violating ordering = Equal)")
-                continue
-            ok = False
-            for a in atoms:
-                if variant == "Greater" and ((a[2] == "asc" and a[3]) or (a[2] == "desc" and not a[3])):
-                    ok = True
-                if variant == "Less" and ((a[2] == "asc" and not a[3]) or (a[2] == "desc" and a[3])):
-                    ok = True
-            if ok:
-                n_dir += 1
-            else:
-                out.viol("C06.dir", "C06.dir|ordering|%s" % variant, ctx.where(vb),
-                         "the violating ordering is %s under the condition %s; expected Greater for asc and Less for desc" % (variant, [(a[2], a[3]) for a in atoms]))
-        if set(table) != {"Greater", "Less"}:
-            out.viol("C06.dir", "C06.dir|ordering-set", ctx.where(vb), "the violating ordering takes the values %s; expected {Greater, Less}" % sorted(table))
-        samples.append("violating := Greater if normalised == 'asc' else Less")
-    out.inst("C06.dir", n_dir, 5, samples, exhaustive=True, note="direction table over {value empty, ==asc, ==desc}")
+    viol_ord = check_direction(ctx, out, vb)
 
     # ------------------------------------------------------------------ line loop
     loops = linelevel.line_loops(ctx, vb)
@@ -368,103 +532,11 @@ def run(ctx, out, tier):
             n_cmp += 1
         else:
             out.viol("C06.cmp", "C06.cmp|numeric-parse", ctx.where(cmpf), "expected both keys to be parsed as f64 under the numeric format, found %d parse call(s)" % len(parses))
-        # call site: (previous key, current key)
-        ea = E.operand(ct["args"][1])
-        eb = E.operand(ct["args"][2])
+        out.inst("C06.cmp", n_cmp, 5, ["%s: Lexicographic -> str::cmp(a,b); Numeric -> total_cmp(parse(a)?, parse(b)?)" % cmpf.id])
 
-        def root_local(e):
-            while e[0] in ("proj",):
-                e = e[1]
-            return e
+        # (C06.violates - `push iff cmp == violating ordering` - is part of the C06.dir case table now)
 
-        ra, rb = root_local(ea), root_local(eb)
-
-        def carried(r):
-            if r[0] != "var":
-                return False
-            ds = vb.defs().get(r[1], [])
-            return any(d[1] not in blocks for d in ds) and any(d[1] in blocks for d in ds)
-
-        def fresh(r):
-            if r[0] == "var":
-                ds = vb.defs().get(r[1], [])
-                return ds and all(d[1] in blocks for d in ds)
-            return r[0] == "call"
-
-        if carried(ra) and fresh(rb):
-            n_cmp += 1
-            prev_local = ra[1]
-        else:
-            prev_local = ra[1] if ra[0] == "var" else None
-            out.viol("C06.cmp", "C06.cmp|call-order", ctx.where(vb, ct["span"]),
-                     "the comparator is called with (%s, %s); expected (previous key, current key): the first argument must be the value carried over from the previous line, the second the key of the current line" % (render(ea, 80), render(eb, 80)))
-        out.inst("C06.cmp", n_cmp, 6, ["%s: Lexicographic -> str::cmp(a,b); Numeric -> total_cmp(parse(a)?, parse(b)?)" % cmpf.id, "call: cmp(prev, curr)"])
-
-        # -------------------------------------------------------------- C06.violates
-        n_v = 0
-        for bi, t in pushes:
-            if bi not in region:
-                continue
-            ok = False
-            for br, vals, e in util.guards(ctx, vb, bi):
-                txt = render(e, 600)
-                if re.search(r"Ordering as std::cmp::PartialEq>::eq\(", txt) or re.search(r"PartialEq>::eq\(", txt) and "Ordering" in txt:
-                    # operands: comparison result and the violating ordering
-                    if e[0] == "call":
-                        roots = [root_local(a) for a in e[2]]
-                        uses_viol = any(r[0] == "var" and r[1] == viol_ord for r in roots)
-                        uses_cmp = any(find_calls(a, re.escape(cmpf.id) + "$") for a in e[2])
-                        if uses_viol and uses_cmp and 0 not in vals:
-                            ok = True
-                        elif uses_viol and uses_cmp:
-                            out.viol("C06.violates", "C06.violates|polarity", ctx.where(vb, t["span"]),
-                                     "the violation is pushed when the comparison result DIFFERS from the violating ordering")
-                            ok = True
-            if ok:
-                n_v += 1
-            else:
-                out.viol("C06.violates", "C06.violates|guard", ctx.where(vb, t["span"]),
-                         "the keep-sorted violation push is not guarded by `cmp(prev, curr) == violating ordering`")
-        out.inst("C06.violates", n_v, 1, ["push iff cmp(prev,curr) == violating"])
-
-        # -------------------------------------------------------------- C06.adjacent
-        n_adj = 0
-        if prev_local is not None:
-            assigns_in_loop = [d for d in vb.defs().get(prev_local, []) if d[1] in blocks]
-            assign_blocks = {d[1] for d in assigns_in_loop}
-            # the arm on which a key exists: Some-arm of the switch on the key extraction result
-            key_arm = None
-            for bi, j, s in vb.assigns():
-                if bi in blocks and s["rv"]["k"] == "discr":
-                    e = E.place(s["rv"]["place"])
-                    r = root_local(e)
-                    if r[0] == "var" and any(d[0] == "call" and (d[3].get("res") or "") in [k[0].id for k in key_fns(ctx, vb)] for d in vb.defs().get(r[1], [])):
-                        dl = s["lhs"]["l"]
-                        for bj, t in vb.terms():
-                            if t["k"] == "switch" and (util.op_place(t["op"]) or {}).get("l") == dl:
-                                key_arm = util.switch_arms(vb, bj).get(1)
-            latches = [x for x in blocks if header in cfg.succ[x]]
-            if key_arm is None or not assign_blocks:
-                out.viol("C06.adjacent", "C06.adjacent|shape", ctx.where(vb), "could not find the branch on the extracted key or the update of the previous key inside the line loop")
-            else:
-                inside_avoid = (set(range(cfg.n)) - set(blocks)) | assign_blocks
-                r = cfg.reach(key_arm, avoid=inside_avoid)
-                if any(l in r for l in latches):
-                    out.viol("C06.adjacent", "C06.adjacent|stale-previous", ctx.where(vb),
-                             "there is a path through the line loop on which a key was extracted but the previous key is not replaced by it: later keys would be compared with an older key instead of their neighbour")
-                else:
-                    n_adj += 1
-                # the new previous value is the current key
-                for d in assigns_in_loop:
-                    if d[0] == "stmt":
-                        labs = ctx.prov.read_operand(vb, d[3]["rv"]["op"]) if d[3]["rv"]["k"] == "use" else set()
-                        keyfn_ids = [k[0].id for k in key_fns(ctx, vb)]
-                        if any(P.has_call(labs, re.escape(k) + "$") for k in keyfn_ids):
-                            n_adj += 1
-                        else:
-                            out.viol("C06.adjacent", "C06.adjacent|value", ctx.where(vb, d[3]["span"]),
-                                     "the previous key is updated from [%s], not from the key extracted from the current line" % util.origins_text(labs, 4))
-        out.inst("C06.adjacent", n_adj, 2, ["prev := Some(curr) on every non-violating path with a key"])
+        check_pairs(ctx, out, vb)
 
     # ------------------------------------------------------------------ C06.first
     n_first = linelevel.first_wins(ctx, out, "C06.first", vb, region, header, pushes, "keep-sorted")
